@@ -188,6 +188,9 @@ def cases(shard, nshards, seed, tier):
     for i in range(nsyn):
         if mine():
             yield {"family": "synthetic-contacts", "i": i}
+    for i in range(4 if tier == "quick" else 40):
+        if mine():
+            yield {"family": "crowded", "i": i}
     ncli = 12 if tier == "quick" else 150
     for i in range(ncli):
         if mine():
@@ -238,6 +241,26 @@ def synthetic(seed, i):
             atoms.append(tertiary.Atom(None, None, auth, 1, nm, float(p[0]), float(p[1]), float(p[2]), occ))
         if atoms:
             residues.append(tertiary.Residue3D(None, auth, 1, auth.name[-1] if auth.name != "HOH" else "?", tuple(atoms)))
+    return tertiary.Structure3D(residues)
+
+
+def crowded(seed, i):
+    """Many nearly superposed copies of one nucleotide (alternate conformers / merged models
+    stored as chains of one model): some atoms have far more than 32 neighbours in range."""
+    from rnapolis import tertiary
+    from rnapolis.common import ResidueAuth
+
+    rng = random.Random(f"{seed}:C17:crowded:{i}")
+    src = gen3d.load(rng.choice(["tests/1A1T_1_B.cif", "tests/1E7K_1_C.cif", "tests/184D.cif"]), 1)
+    nts = [r for r in src.residues if len(r.atoms) > 15]
+    base = rng.choice(nts)
+    ncopies = rng.randint(12, 18)
+    residues = []
+    for c in range(ncopies):
+        auth = ResidueAuth("ABCDEFGHIJKLMNOPQRST"[c], 1, None, base.name)
+        d = [rng.gauss(0, 0.08) for _ in range(3)]
+        atoms = tuple(tertiary.Atom(None, None, auth, 1, a.name, a.x + d[0] + rng.gauss(0, 0.02), a.y + d[1], a.z + d[2], rng.choice([1.0, 0.5, 0.5, None])) for a in base.atoms)
+        residues.append(tertiary.Residue3D(None, auth, 1, base.one_letter_name, atoms))
     return tertiary.Structure3D(residues)
 
 
@@ -364,6 +387,11 @@ def run_case(case, rec):
     if fam == "cli":
         _cur["ctx"] = {"cli": case["i"]}
         rec.mark_nontrivial(run_cli(rec, seed, case["i"]))
+        return
+    if fam == "crowded":
+        s = crowded(seed, case["i"])
+        _cur["ctx"] = {"crowded": case["i"], "residues": len(s.residues)}
+        rec.mark_nontrivial(run_all_options(rec, s))
         return
     if fam == "synthetic-contacts":
         s = synthetic(seed, case["i"])
